@@ -30,7 +30,7 @@ CLAIMS.update({
              "Whole-module decoding on arbitrary bytes and the rest of function-body validation are outside this claim (see evidence bounds)."),
     "C16": dict(level="model_checking", engine="gosym", technique=E1_TECH, design_ref="DESIGN.md §5 C16",
         text="One-step induction against ghost reference models: from an arbitrary descriptor table state (0..2 symbolic mask words, symbolic items) Insert returns the lowest free key, "
-             "InsertAt/Delete/Lookup act as a map for every int32 key and leave all other keys unchanged. FSContext open/close/renumber against a ghost map from states with 0, 59 or 60 descriptors open (just below / at the 64-entry word boundary of the table's bitmap) plus 0..2 opens and two arbitrary operations on descriptors around the top of the table; fd_readdir two-step protocol. "
+             "InsertAt/Delete/Lookup act as a map for every int32 key and leave all other keys unchanged. FSContext open/close/renumber against a ghost map from states with 0, 59 or 60 descriptors open (just below / at the 64-entry word boundary of the table's bitmap) plus 0..2 opens and two arbitrary operations on descriptors around the top of the table; fd_readdir two-step protocol; the dirent cache behind it: histories of four reads (0..3 entries, 3..6 entries asked) from 0 (rewind) or any cookie of the previous read return exactly the slice of ['.', '..', entries] that starts there. "
              "fd_renumber to ANY target descriptor 6..2^31-1 (table growth by a symbolic amount, sparse-array model) is atomic: on success the file is under the target only, on failure still under the source, never closed, other descriptors unaffected. "
              "Read/write/seek content and OS file semantics are outside the claim."),
     "C17": dict(level="model_checking", engine="gosym", technique=E1_TECH, design_ref="DESIGN.md §5 C17",
@@ -51,7 +51,7 @@ CLAIMS.update({
     "C19": dict(level="model_checking", engine="gosym", technique=E1_TECH, design_ref="DESIGN.md §5 C19",
         text="From a module configuration built by 0..3 WithEnv calls (real append capacities via a model of runtime.growslice), two sibling derivations and one grandchild derivation by arbitrary With... calls "
              "(symbolic strings, keys colliding or not) leave parent and earlier child deeply unchanged (backing arrays compared); same for FSConfig mounts (slices, map, preopens copies) and every RuntimeConfig With.... "
-             "Socket configuration: siblings and grandchild of bases with 0..5 listeners (symbolic ports). Instantiation: Runtime.InstantiateModule (real runtime on the interpreter, context with or without a socket configuration) and toSysContext leave every field of the configuration unchanged. "
+             "Socket configuration: siblings and grandchild of bases with 0..5 listeners (symbolic ports). Instantiation: Runtime.InstantiateModule (real runtime on the interpreter, binary with or without a module name, context with or without a socket configuration) and toSysContext leave every field of the configuration unchanged. "
              "Data races between goroutines are outside the claim."),
     "C02": dict(level="model_checking", engine="gosym", technique=E1_TECH, design_ref="DESIGN.md §5 C02",
         text="Interpreter side, through the real decode/validate/compile/instantiate/call pipeline: each of the 23 scalar load/store instructions, for all 2^32 base addresses, all 2^32 static offsets "
@@ -61,7 +61,7 @@ CLAIMS.update({
         text="Interpreter side, through the real pipeline (binary -> DecodeModule -> Validate -> interpreter compiler -> callNativeFunc): every scalar integer instruction (i32/i64 arithmetic, bit, shift/rotate, comparison, "
              "clz/ctz/popcnt, extensions, wrap, reinterpret), every f32/f64 binary instruction incl. min/max/copysign and comparisons, abs/neg/ceil/floor/trunc/sqrt, all 16 trapping and saturating float-to-int truncations "
              "and all int-to-float conversions, demote and promote equal the specification for ALL operand values (floats via the SMT floating-point theory; any arithmetic NaN accepted where the specification yields NaN). "
-             "Machine level (L2): the integer instructions with operands from parameters (71 programs) and with a constant operand (immediates, strength reduction) are compiled by the real wazevo front end and amd64 back end "
+             "Machine level (L2): the integer instructions with operands from parameters (71 programs) and with a constant operand (immediates, strength reduction; constants on the right AND on the left; every i32/i64 comparison with a constant on either side consumed as a value, by select and by if) are compiled by the real wazevo front end and amd64 back end "
              "and the reference evaluator of the final machine instructions is compared with the interpreter for all operand values. f32/f64.nearest, v128 instructions, floating point at machine level, the byte encoder and arm64 are outside this claim."),
     "C08": dict(level="model_checking", engine="gosym", technique=E1_TECH, design_ref="DESIGN.md §5 C08",
         text="Interpreter side: for every stack-based host function signature of 0..3 params and 0..2 results over {i32,i64,f32,f64} and all values, the host receives exactly the guest's values and guest and Go caller "
@@ -79,7 +79,7 @@ CLAIMS.update({
         text="Interpreter side, compiled with close-on-context-done: for 10 cycle shapes (loop br / br_if / br_table, nested loops, self and mutual recursion, return_call self and mutual, call_indirect and "
              "return_call_indirect cycles) with every branch condition symbolic, a module closed before the cycle ends the call with the exit error for its cause within a step budget (exceeding the budget is the violation, replayed "
              "natively as a hang); a close arriving from a host callback at round 0..2 stops the guest at the next check; a call with an already-done context returns the matching exit code and closes the module. "
-             "The watcher goroutine is not scheduled in the model (its effect is applied explicitly); Cross-module: each cycle shape running in a function imported from another module, entered directly (depth 1) or through another function of that module (depth 2), stops when the module the call was made on is closed. Compiler front end: for each cycle shape (incl. tail calls; with and without imported functions) the optimised SSA compiled with close-on-context-done leaves through the exit-code check within the step bound once the module is closed, "
+             "The watcher goroutine is not scheduled in the model (its effect is applied explicitly); Cycle shapes include switch-in-loop forms (the loop repeated only through a br_table whose first label is a block, or as the default). Cross-module: each cycle shape running in a function imported from another module, entered directly (depth 1) or through another function of that module (depth 2), stops when the module the call was made on is closed. Compiler front end: for each cycle shape (incl. tail calls; with and without imported functions) the optimised SSA compiled with close-on-context-done leaves through the exit-code check within the step bound once the module is closed, "
              "for all branch conditions. Wall-clock promptness, the watcher goroutine and the native call engine are outside this claim."),
     "C20": dict(level="model_checking", engine="gosym", technique=E1_TECH, design_ref="DESIGN.md §5 C20",
         text="Interpreter side: guest f -> guest g -> host h with recording listeners, all parameter/result values and the trap decision symbolic: the event log is well nested with exactly one before and one after/abort per call, "
@@ -101,6 +101,7 @@ CLAIMS.update({
              "capture the imported global's current value; what validateConstExpression accepts names an in-range global of the expected type / in-range function. Through the real pipeline on the interpreter: a grid of "
              "exporter/importer memory limits and global types/mutabilities is accepted exactly per the import-matching relation, and afterwards stores, memory.grow and global.set through one instance are observed through the other "
              "(all addresses/values symbolic). Function references in a table shared by two instances of one compiled module and a separately compiled importer, and a directly imported function: whoever calls and however (call_indirect, return_call_indirect, call, return_call), the callee runs in the instance that defined it (its global changes, nobody else's), for all values. "
+             "An importer's active element segment writes the shared table item by item (ref.func installs, ref.null clears - known finding: null items are skipped). "
              "Table import limit matching, failed-instantiation rollback (see C10) and the compiler side are outside this claim."),
     "C11": dict(level="model_checking", engine="gosym", technique=E1_TECH, design_ref="DESIGN.md §5 C11",
         text="Two instances of ONE compiled module (the same wasm.Module and compiled code; active and passive data segments, mutable global, table with an element) through the real pipeline on the interpreter, the second created before or after "
@@ -112,6 +113,7 @@ CLAIMS.update({
         text="For each program of a generated family (T1: 71 one-instruction integer/conversion/select programs; T1c: constant-operand programs; T3: 14 control-flow programs - if/else, br_if, br_table, loops with loop-carried values that are shifted, swapped and rotated on the back edge, globals, multi-value call, trap-after-effect) the binary is compiled by the real "
              "wazevo front end and optimisation passes and lowered by the real interpreter compiler; a reference evaluator of the optimised SSA and the real interpreter are then executed symbolically on the same arbitrary arguments, "
              "memory (0..65536 pages) and globals, and the solver decides that outcome kind, every result bit, final globals and final memory are equal for ALL input values. Program shape is enumerated, values are symbolic. "
+             "Imported globals: a module importing two globals of another instance - distinct, or ONE global under two import indexes - reading and writing them in 6 short orders: SSA and interpreter agree on results and on the exporter's globals. "
              "Machine level (L2): the same families are compiled further by the real amd64 back end (instruction selection, register allocation, prologue/epilogue, block-argument moves, jump tables) and a reference evaluator of the "
              "final machine instruction list (post-regalloc `instruction` structs, before byte encoding) is compared with the interpreter in the same way. "
              "The byte encoder (instr_encoding.go), the arm64 back end, the native call engine (entry preamble, stack growth, unwinding), SIMD, atomics, tables and multi-call histories are outside this claim.",
@@ -121,10 +123,11 @@ CLAIMS.update({
 })
 CLAIMS["C13"] = dict(level="model_checking", engine="gosym", technique=E1_TECH + "; the file system is an environment model (ordinary Go code in harness/verifrt/fsmodel.go reached by redirecting the os calls) in which every directory-changing operation is a crash point; crash counterexamples are replayed on a real directory by killing a child process under strace at the same system call", design_ref="DESIGN.md §5 C13",
     text="Crash safety of adding an entry: the real fileCache.Add runs against a file-system model where create, write, sync, close, rename and remove are steps; for every content of 0..4 symbolic bytes delivered in 1 or 2 writes, every prior directory state (none / complete older entry / leftover temp file), every single failing step (incl. a short write) or failing content reader, and a crash before EVERY step: the final name holds nothing, the complete older entry or the complete new entry - never a partial one; on success Get returns exactly the content and Delete removes it. "
+         "Concurrent writers of one key: writer B runs (completes, dies after its first write, or fails) while writer A is between its two writes - the visible entry is the complete content of one of them (checked on the model and, natively, on a real directory). "
          "Entries on load: an entry written by the real serializeCompiledModule for an arbitrary module (0..2 symbolic function offsets, 0..3 code bytes, optional source map) by a wazero of ANY version string of length 0..12 and cut to ANY length is used by the real getCompiledModuleFromCache/deserializeCompiledModule only if the version is ours and what was read equals what was written; otherwise it is reported or deleted; no Go run-time panic. "
-         "Outside the claim: determinism of code generation (same module -> same bytes), loss of un-synced data at power failure (crash = process death: written data persists), torn writes inside one system call, concurrent writers of one key, corrupted (as opposed to truncated) entries.")
+         "Outside the claim: determinism of code generation (same module -> same bytes), loss of un-synced data at power failure (crash = process death: written data persists), torn writes inside one system call, interleavings of concurrent writers other than 'B inside A's copy', corrupted (as opposed to truncated) entries.")
 CLAIMS["C02"]["text"] += (" Compiler front end (L1): the optimised wazevo SSA of 23 load/store kinds x boundary static offsets and of 8 reuse shapes on the same base value "
-    "(two accesses, narrow-then-wide, across a call that may grow the memory, across memory.grow, store-then-load, across an if/else join, constant base bound to a local, memory.size/grow) is evaluated by a reference SSA evaluator in which "
+    "(two accesses, narrow-then-wide, across a call that may grow the memory, across memory.grow, store-then-load, across an if/else join, an if WITHOUT else followed by an access, an if/else with three independent offsets (then / else / after the join), a base that is i32.wrap_i64 of an i64 parameter accessed in both arms and after the join, constant base bound to a local, memory.size/grow) is evaluated by a reference SSA evaluator in which "
     "every dereference is an obligation (inside [0,size) of the CURRENT memory epoch - a call or grow moves the memory - or the module/execution context) and compared with the interpreter for all bases, sizes 0..65536 pages and contents. "
     "Machine level (L2): the same single-access and reuse families compiled by the real amd64 back end; the reference evaluator of the final machine instructions makes every dereference (address modes with folded constants and "
     "extended index registers included) an obligation and compares with the interpreter. The byte encoder, arm64, SIMD and atomic accesses are outside the claim.")
